@@ -11,7 +11,13 @@ import (
 	"github.com/bnb-chain/tss-lib/v2/tss"
 )
 
-const repoRoot = "/repo"
+// repoRoot is where the library checkout lives (only the vendored fixture files are read from it).
+var repoRoot = func() string {
+	if r := os.Getenv("VERIF_REPO_ROOT"); r != "" {
+		return r
+	}
+	return "/repo"
+}()
 
 var (
 	ecFixOnce sync.Once
